@@ -22,7 +22,12 @@ from engine.fakes_transfer import ST, UP, DOWN, TLoop
 
 from aioslsk.exceptions import ConnectionWriteError, InvalidStateTransition
 from aioslsk.events import PeerInitializedEvent
-from aioslsk.protocol.messages import PeerTransferQueue, PeerTransferRequest
+from aioslsk.protocol.messages import (
+    GetUserStatus, PeerTransferQueue, PeerTransferQueueFailed, PeerTransferRequest, PeerUploadFailed,
+)
+from aioslsk.user.manager import UserManager
+from aioslsk.user.model import UserStatus
+from engine import sstr
 from aioslsk.transfer import manager as tm
 from aioslsk.transfer.manager import TransferManager, _RequestFlag
 from aioslsk.transfer.model import Transfer
@@ -61,8 +66,10 @@ def _snapshot(t):
 
 def _same(a, b):
     """equality of two field values that may be symbolic"""
-    if a is None or b is None or isinstance(a, str) or isinstance(b, str):
-        return a is b or a == b
+    if a is b:
+        return True
+    if a is None or b is None:
+        return False
     return a == b
 
 
@@ -130,7 +137,7 @@ TICKET = 4711
 
 
 def h_cancel(c, kind='download', init=('QUEUED',), op='abort', target=0, cycles=1, sends=2,
-             outcomes=('ok', 'slow_ok', 'slow_err'), replies=1, max_steps=90, tail=False, peer_starts=False):
+             outcomes=('ok', 'slow_ok', 'slow_err'), replies=1, max_steps=90, tail=False, peer_starts=False, report=None):
     loop = TLoop()
     up = kind == 'upload'
     phase = {'after_return': False, 'sends': 0}
@@ -171,6 +178,10 @@ def h_cancel(c, kind='download', init=('QUEUED',), op='abort', target=0, cycles=
                 t.state = TransferState.init_from_state(ST.INCOMPLETE, t)
             elif st == 'FAILED':
                 t.state = TransferState.init_from_state(ST.FAILED, t)   # fail_reason None: retried by the manager
+            elif st == 'FAILED_REASON':
+                # the peer refused the file earlier; its reason string is peer data and may be empty
+                t.fail_reason = _peer_reason(c, f'fail_reason_t{i}')
+                t.state = TransferState.init_from_state(ST.FAILED, t)
             else:
                 raise symex.HarnessError(st)
             T.append(t)
@@ -355,7 +366,77 @@ def h_cancel(c, kind='download', init=('QUEUED',), op='abort', target=0, cycles=
             c.check(eq, 'no_field_change_after_return', sig=sig, info={'field': nm})
         c.check(not ft.live_negotiations(loop, tgt), 'no_negotiation_started_after_return', sig=sig)
         c.check(not loop.errors, 'no_loop_errors', sig=sig, info=repr(loop.errors[:1]))
+        if report is not None:
+            _after_report(c, loop, w, tgt, report, sig, marks, names)
         loop.cleanup()
+
+
+REASON_MAXLEN = 2
+
+
+def _peer_reason(c, base):
+    """a reason string as a peer sends it: any string of length 0..2 over the alphabet of engine.sstr
+    (symbolic characters; the length - the empty string included - is a choice)"""
+    n = c.choose(REASON_MAXLEN + 1, base + '_len')
+    return sstr.fresh_str(c, base, n)
+
+
+def _after_report(c, loop, w, tgt, report, sig, marks, names):
+    """the call has returned and 200 s have passed.  Now the peer reports a failure for that file
+    (it had the request queued), then its status flaps and management cycles run.  The report itself is
+    a legitimate peer event: what it changes directly (state / fail_reason for a queue failure,
+    remotely_queued for an upload failure) is the new baseline; but it is not a re-queue, so afterwards
+    still nothing may be sent / opened / changed for the file."""
+    mgr = w.manager
+    conn = _PeerConn('peer0')
+    before = _snapshot(tgt)
+    if report == 'queue_failed':
+        reason = _peer_reason(c, 'reported_reason')
+        c.note(f't={loop.time():.2f} peer reports PeerTransferQueueFailed, reason of length {len(reason)}')
+        co = mgr._on_peer_transfer_queue_failed(PeerTransferQueueFailed.Request(tgt.remote_path, reason), conn)
+        own = ('state', 'fail_reason')
+    elif report == 'upload_failed':
+        c.note(f't={loop.time():.2f} peer reports PeerUploadFailed')
+        co = mgr._on_peer_upload_failed(PeerUploadFailed.Request(tgt.remote_path), conn)
+        own = ('remotely_queued',)
+    else:
+        raise symex.HarnessError(report)
+    loop.spawn(co, name='peer-failure-report')
+    loop.run_ready()
+    base = _snapshot(tgt)
+    for nm, a, b in zip(names, before, base):
+        if nm not in own:
+            c.check(_ok(_same(a, b)), 'peer_report_changes_only_its_own_fields', sig=sig + [report], info={'field': nm})
+    c.note(f't={loop.time():.2f} after the report: state={tgt.state.VALUE.name}')
+    cycles = {'n': 0}
+    real_manage = mgr.manage_transfers
+
+    def manage_transfers():
+        cycles['n'] += 1
+        return real_manage()
+    mgr.manage_transfers = manage_transfers
+    server = object()
+    for status in (UserStatus.OFFLINE, UserStatus.ONLINE, UserStatus.AWAY):
+        msg = GetUserStatus.Response('peer0', status.value, False)
+        loop.spawn(w.um._on_get_user_status(msg, server), name='status-update-users')
+        loop.spawn(mgr._on_get_user_status(msg, server), name='status-update-transfers')
+        loop.advance(1)
+    loop.call(mgr.request_management_cycle, _RequestFlag.TRANSFER_CHANGE)
+    loop.advance(100)
+    if cycles['n'] < 2:
+        raise symex.HarnessError('fewer than 2 management cycles after the peer report')
+    c.reach('cycles_after_peer_report')
+    rsig = sig + [report]
+    new_msgs = [type(m).__qualname__ for (_, _, m) in w.net.sent[marks[1]:] if _mentions(m, tgt)]
+    new_attempts = [a for a in w.net.attempts[marks[0]:] if any(_mentions(m, tgt) for m in a['messages'])]
+    c.check(not new_msgs, 'no_message_after_return', sig=rsig, info={'messages': new_msgs, 'state': tgt.state.VALUE.name})
+    c.check(not new_attempts, 'no_connection_attempt_after_return', sig=rsig, info={'new': len(new_attempts)})
+    c.check(not ft.live_negotiations(loop, tgt), 'no_negotiation_started_after_return', sig=rsig)
+    for nm, a, b in zip(names, base, _snapshot(tgt)):
+        if nm == 'remotely_queued' and b is False:
+            continue      # the peer went OFFLINE: its queue is gone, the flag is reset - direct effect of that peer event
+        c.check(_ok(_same(a, b)), 'no_field_change_after_return', sig=rsig, info={'field': nm})
+    c.check(not loop.errors, 'no_loop_errors', sig=rsig, info=repr(loop.errors[:1]))
 
 
 META = {
@@ -379,7 +460,9 @@ META = {
                   TransferManager.add, TransferManager._queue_remotely, TransferManager._initialize_upload,
                   TransferManager._upload_file, TransferManager._on_peer_transfer_request, TransferManager._initialize_download,
                   TransferManager._download_file, TransferManager._on_peer_initialized, TransferManager._calculate_offset,
-                  TransferManager._prepare_download_path, Transfer.reset_queue_vars, TransferManager._management_job, TransferManager.request_management_cycle,
+                  TransferManager._prepare_download_path, Transfer.reset_queue_vars, TransferManager._on_peer_transfer_queue_failed,
+                  TransferManager._on_peer_upload_failed, TransferManager._on_get_user_status, TransferManager._reset_remotely_queued_flags,
+                  UserManager._on_get_user_status, PausedState.fail, TransferManager._management_job, TransferManager.request_management_cycle,
                   TransferManager.on_transfer_state_changed, TransferManager.manage_user_tracking,
                   Transfer.cancel_tasks, Transfer.get_tasks, Transfer._remotely_queue_task_complete, Transfer._transfer_task_complete,
                   Transfer.transition, Transfer.increase_queue_attempts, Transfer.reset_queue_attempts,
@@ -398,16 +481,21 @@ META = {
               'asyncio event loop -> engine.vloop.VLoop subclass that records which coroutine/transfer each task was created for',
               'step only: Transfer.state -> object exposing VALUE as a lazily forking symbolic enum (real state classes in replay); '
               'list in aioslsk.transfer.manager -> list subclass that merges the outcomes of a symbolic slice bound',
+              'peer reason strings -> engine.sstr.SStr (symbolic characters, concrete length per path; plain str in replay)',
               'progress reporting task not started (only the management BackgroundTask runs)'],
     'data_variables': ['upload_slots 0..4 (step)', 'remotely_queued / fail reason present / task in flight / transition in progress per transfer (Bool, step)',
                        'loop step at which the user call is issued (Int, split once per step)',
                        'queue_attempts, upload_request_attempts >= 0 (Int)', 'last_queue_attempt >= 0 (Real)',
-                       'filesize 0..2^64-1, bytes_transfered < filesize (Int)'],
+                       'filesize 0..2^64-1, bytes_transfered < filesize (Int)',
+                       'reason string of a peer failure report (PeerTransferQueueFailed after the call returned) and fail_reason of a download that '
+                       'failed earlier: symbolic characters over the 18-character alphabet of engine.sstr, length 0..2 (the empty string included)'],
     'discriminants': ['direction and owner of each transfer (job parameters)', 'transfer state (symbolic index, forked lazily by the code)',
                       'initial state QUEUED / INCOMPLETE / FAILED-without-reason', 'user call abort / pause / remove',
                       'outcome of every peer send (ok, slow ok, slow error[, immediate error])',
                       'idle-point events: extra management cycle, transfer reply, write error while uploading, peer re-queues the file, '
-                      'peer sends PeerTransferRequest for the download, its file connection arrives'],
+                      'peer sends PeerTransferRequest for the download, its file connection arrives',
+                      'after the call returned: kind of peer failure report (PeerTransferQueueFailed / PeerUploadFailed), length of its reason (0..2); '
+                      'then a fixed sequence of status reports OFFLINE, ONLINE, AWAY for the peer through the real handlers and >= 2 management cycles'],
     'bounds': {'quick': {'step_shapes': 'U, D, UU (same/different user), UD, DD', 'scenario_transfers': '1..2 for one peer', 'peer_sends': 2,
                          'extra_cycles': 1, 'replies': 1, 'loop_steps': 90, 'clock_after_return': '200 s'},
                'thorough': {'step_shapes': 'all shapes of <= 3 transfers (owner patterns among uploads), UUUU x 2, UUUD',
@@ -419,6 +507,8 @@ META = {
                 'a legitimate reply, not exercised here)', 'download histories beyond "the peer starts the transfer and the read is pending" (read errors, completion)',
                 'TransferStateListeners other than the manager', 'stale-state dispatch in _with_state_lock (C03)'],
     'assumptions': ['asyncio Task/Future/Queue/Lock semantics of CPython 3.12 (FIFO ready queue)',
+                    'a peer failure report and an OFFLINE status of the peer are legitimate peer events: their direct effect (PAUSED -> FAILED with the '
+                    'reported reason; remotely_queued reset) is the new baseline, but they are not a re-queue',
                     'Network.send_peer_messages suspends at least once and propagates cancellation'],
 }
 
@@ -479,6 +569,26 @@ def jobs(tier):
             out.append({'harness': 'cancel', 'fn': h_cancel,
                         'params': dict(kind='download', init=['QUEUED', 'QUEUED'], op=op, target=0, peer_starts=True, cycles=0,
                                        sends=2, outcomes=['slow_ok', 'slow_err']), 'requires': preq})
+        # after the call returned the peer reports a failure for the file (reason: symbolic string, may be empty),
+        # its status flaps, management cycles run: still nothing may happen for the file
+        rsc = dict(cycles=0, sends=1, outcomes=['ok', 'slow_err']) if q else dict(cycles=1, sends=2, outcomes=['ok', 'slow_ok', 'slow_err'])
+        rreq = req + ['cycles_after_peer_report']
+        for rep in ('queue_failed', 'upload_failed'):
+            if q and rep == 'upload_failed' and op != 'pause':
+                continue
+            for st in (['QUEUED'] if q else ['QUEUED', 'INCOMPLETE']):
+                out.append({'harness': 'cancel', 'fn': h_cancel,
+                            'params': dict(kind='download', init=[st], op=op, target=0, report=rep, **rsc), 'requires': rreq})
+        if op == 'pause' or not q:
+            for target in ((0,) if q else (0, 1)):
+                out.append({'harness': 'cancel', 'fn': h_cancel,
+                            'params': dict(kind='download', init=['QUEUED', 'QUEUED'], op=op, target=target, report='queue_failed',
+                                           cycles=0, sends=2, outcomes=['ok', 'slow_err']), 'requires': rreq})
+        # a download that FAILED earlier with a reason sent by the peer (symbolic, may be empty)
+        out.append({'harness': 'cancel', 'fn': h_cancel,
+                    'params': dict(kind='download', init=['FAILED_REASON'], op=op, target=0, cycles=1, sends=1 if q else 2,
+                                   outcomes=['ok', 'slow_err'], **({'report': 'queue_failed'} if op == 'remove' else {})),
+                    'requires': rreq if op == 'remove' else ['op_done']})
         out.append({'harness': 'cancel', 'fn': h_cancel, 'params': dict(kind='upload', init=['QUEUED'], op=op, target=0, **upsc),
                     'requires': req})
         if not q or op == 'abort':
